@@ -445,6 +445,7 @@ func (handle *writeTxnHandle) Commit() ReadTxn {
 
 	// Commit the transaction to build the new root tree and then
 	// atomically store it.
+	vhook("commit.rootbuilt")
 	db.root.Store(&root)
 	vhook("commit.stored")
 	db.mu.Unlock()
